@@ -523,6 +523,34 @@ func handleCrash(a OrchArgs, info *props.Info, cr crashCase) (violationLine, tro
 		// error (e.g. unbounded recursion growing stack and heap): alone it reaches that error
 		cr.hang, cr.exit, same = false, exit, true
 	}
+	if !same && !hung && exit == 1 {
+		// Alone, the run does not take the process down but ends as an ordinary violation (what a
+		// double release turns into - a cyclic tree that overflows the stack, or an unsound tree the
+		// audit reports - depends, in race builds, on which pooled items sync.Pool drops at random).
+		// It is reported as that violation, with the tape just recorded.
+		clause, what := "", ""
+		for _, l := range strings.Split(out, "\n") {
+			if strings.HasPrefix(l, "violated clause ") {
+				rest := strings.TrimPrefix(l, "violated clause ")
+				if i := strings.Index(rest, ": "); i > 0 {
+					clause, what = rest[:i], rest[i+2:]
+				}
+				break
+			}
+		}
+		if clause != "" {
+			vals, labels := readTapeFile(tapeFile)
+			rf := &ReplayFile{Property: a.Prop, Clause: clause, What: what, Tier: a.Tier, Seed: cr.seed, Run: cr.run, Race: cr.race, Instr: cr.instr,
+				Mode: "tape", Tape: vals, Labels: labels, Detail: []string{firstLines(out, 60)},
+				Narrative: []string{"the run first ended abnormally in a worker (exit " + fmt.Sprint(cr.exit) + "); re-run alone it ends as this violation"}}
+			path, err := WriteReplay(rf)
+			if err != nil {
+				return "", err.Error()
+			}
+			fmt.Printf("violation: clause=%s %s\n", clause, what)
+			return fmt.Sprintf("VIOLATION property=%s replay=%s", a.Prop, path), ""
+		}
+	}
 	if !same {
 		return "", fmt.Sprintf("run %d (seed %d) ended abnormally in a worker (exit %d, hang=%v) but not when re-run alone (exit %d, hang=%v); worker stderr:\n%s", cr.run, cr.seed, cr.exit, cr.hang, exit, hung, cr.text)
 	}
